@@ -75,8 +75,13 @@ def num_table(rng):
                            ("f64", (-1000, -300, -30, -3, 0, 20, 300, 1000), "d17")):
         for n, e in enumerate(exps):
             sign = -1.0 if n % 2 else 1.0
-            while True:
-                v = sign * (1.0 + rng.random()) * 2.0 ** e
+            lim = 125 if typ == "f32" else 1020
+            tries = 0
+            while True:          # only some binades contain such values: look around the target exponent
+                tries += 1
+                spread = 6 if tries < 20000 else lim
+                ee = max(-lim, min(lim, e + rng.randint(-spread, spread)))
+                v = sign * (1.0 + rng.random()) * 2.0 ** ee
                 if typ == "f32":
                     v = f32(v)
                 if needs_all_digits(v, typ):
